@@ -150,6 +150,19 @@ REGISTRY["C06"] = dict(
     explanation="Clauses of DESIGN.md §3 C06 on MIR facts of the current tree; the evaluation-time readers of the style flag on the pinned tree are listed as known findings, each with an input whose SassScript-visible result differs between styles. NOT decided: CSS equivalence of the two outputs.",
     assumptions=TRUSTED,
 )
+REGISTRY["C15"] = dict(
+    module="c15",
+    level="other",
+    technique="static analysis: extraction of the phf tables from the static's promoted constants and comparison with an independent CSS table; who-may-construct rule and clamp-provenance check for Color; predicate-sensitive guard analysis of visit_color",
+    claim=(
+        "Table and constructor clauses: (a) all 148 CSS named colours (independent table in spec/) are in name_to_rgba with alpha 0xFF, `transparent` is rgba(0,0,0,0), rgba_to_name is a right inverse; "
+        "(b) Color's fields are private, struct literals occur only in new_rgba/new_hsla/new, the raw constructors are called only from the reviewed set, and from_rgba/from_rgba_fn/from_hwb/from_hsla clamp every parameter "
+        "(from_hsla's alpha obligation is checked at its callers); (c) compressed output writes a name only if it fits and 3-digit hex only under can_use_short_hex. "
+        "NOT decided: HSL/HWB round trips and the colour-function laws (numeric)."
+    ),
+    explanation="Clauses C15-a..c of DESIGN.md §3 on MIR/HIR facts of the current tree and spec/css_named_colors.json. NOT decided: numeric conversions, rounding at .5 boundaries, colour-function identities.",
+    assumptions=TRUSTED + ["spec/css_named_colors.json (npm color-name, cross-checked against prompt_toolkit) is the CSS Color 4 named-colour list"],
+)
 
 UNBUILT = "check not built yet in this session (design in DESIGN.md §3); not claimed until its rules run clean on the pinned tree"
 NOT_APPLICABLE = {
